@@ -9,27 +9,44 @@
 (* environment, and reaches the initialize handshake.  A malformed         *)
 (* configuration surfaces as the documented exception (loader) or as a     *)
 (* reported failure without any spawn (CLI test, runner).                  *)
-(* Deviation RunnerPassesTuple: the runner hands the loader's              *)
-(* (params, timeout) pair on as if it were the parameters.                 *)
+(* A host process may use the entry points several times (Relaunch) and    *)
+(* its own environment may change in between (hostEpoch); a server without *)
+(* a configured environment receives the host's inheritable variables as   *)
+(* they are AT LAUNCH TIME, and a bare command name is resolved on the     *)
+(* PATH the child is given (the configured one when an environment is      *)
+(* configured, the host's otherwise).                                       *)
+(* Deviations:                                                             *)
+(*   RunnerPassesTuple   the runner hands the loader's (params, timeout)   *)
+(*                       pair on as if it were the parameters              *)
+(*   EnvSnapshotCached   the default environment is computed once per host *)
+(*                       process and reused for later launches             *)
+(*   RunnerResolvesOnHostPath  the runner resolves a bare command name on  *)
+(*                       the host's PATH before spawning                   *)
 (***************************************************************************)
 EXTENDS Naturals, Sequences, FiniteSets, TLC
 
-CONSTANTS NServers, RunnerPassesTuple
+CONSTANTS NServers, RunnerPassesTuple, EnvSnapshotCached, RunnerResolvesOnHostPath, MaxRuns
 
 Entries == {"loader", "cliTest", "runner"}
 Malformed == {"none", "missingFile", "invalidJson", "unknownServer"}
 ArgClasses == {"none", "plain", "spaces", "quotes", "unicode", "empty", "many"}
 EnvClasses == {"absent", "empty", "values"}
 TimeoutClasses == {"absent", "int", "float", "stringNumber"}
+CmdClasses == {"absolute", "bare"}          \* bare: a name found (differently) on the configured and on the host PATH
+NoSnapshot == 99
+\* smaller class sets for model checking (argument and timeout classes do not influence any transition)
+SmallArgs == {"plain", "unicode"}
+SmallTimeouts == {"absent", "stringNumber"}
 
-VARIABLES entry, malformed, cfg, phase, loaded, spawned, handshakes, outcome
-vars == <<entry, malformed, cfg, phase, loaded, spawned, handshakes, outcome>>
+VARIABLES entry, malformed, cfg, phase, loaded, spawned, handshakes, outcome, run, hostEpoch, snapshot
+vars == <<entry, malformed, cfg, phase, loaded, spawned, handshakes, outcome, run, hostEpoch, snapshot>>
 
 Servers == 1..NServers
 Init ==
   /\ entry \in Entries /\ malformed \in Malformed
-  /\ cfg \in [Servers -> [args : ArgClasses, env : EnvClasses, timeout : TimeoutClasses]]
+  /\ cfg \in [Servers -> [args : ArgClasses, env : EnvClasses, timeout : TimeoutClasses, cmd : CmdClasses]]
   /\ phase = "start" /\ loaded = {} /\ spawned = <<>> /\ handshakes = {} /\ outcome = "none"
+  /\ run = 1 /\ hostEpoch = 0 /\ snapshot = NoSnapshot
 
 \* the loader entry loads one server; the CLI test one; the runner all of them
 Targets == IF entry = "runner" THEN Servers ELSE {1}
@@ -46,28 +63,50 @@ Load ==
      ELSE /\ loaded' = Targets
           /\ phase' = IF entry = "loader" THEN "done" ELSE "spawn"
           /\ outcome' = IF entry = "loader" THEN "params" ELSE outcome
-  /\ UNCHANGED <<entry, malformed, cfg, spawned, handshakes>>
+  /\ UNCHANGED <<entry, malformed, cfg, spawned, handshakes, run, hostEpoch, snapshot>>
+
+\* what the child of server n is given
+EnvGiven(n) ==
+  IF cfg[n].env = "values" THEN <<"configured", 0>>
+  ELSE IF EnvSnapshotCached /\ snapshot # NoSnapshot THEN <<"host", snapshot>> ELSE <<"host", hostEpoch>>
+ResolvedOn(n) ==
+  IF cfg[n].cmd = "absolute" THEN "absolute"
+  ELSE IF entry = "runner" /\ RunnerResolvesOnHostPath THEN "hostPath"
+  ELSE IF cfg[n].env = "values" THEN "configuredPath" ELSE "hostPath"
+ExpectedEnv(n) == IF cfg[n].env = "values" THEN <<"configured", 0>> ELSE <<"host", hostEpoch>>
+ExpectedResolution(n) ==
+  IF cfg[n].cmd = "absolute" THEN "absolute" ELSE IF cfg[n].env = "values" THEN "configuredPath" ELSE "hostPath"
 
 \* spawn exactly the configured command line and environment for the next loaded server
 Spawn ==
   /\ phase = "spawn" /\ Len(spawned) < Cardinality(loaded)
   /\ IF entry = "runner" /\ RunnerPassesTuple
-     THEN /\ phase' = "done" /\ outcome' = "reportedFailure" /\ UNCHANGED spawned      \* 'tuple' object has no attribute 'command'
-     ELSE /\ spawned' = Append(spawned, [server |-> Len(spawned) + 1, args |-> cfg[Len(spawned) + 1].args, env |-> cfg[Len(spawned) + 1].env])
+     THEN /\ phase' = "done" /\ outcome' = "reportedFailure" /\ UNCHANGED <<spawned, snapshot>>      \* 'tuple' object has no attribute 'command'
+     ELSE LET n == Len(spawned) + 1 IN
+          /\ spawned' = Append(spawned, [server |-> n, args |-> cfg[n].args, env |-> cfg[n].env, given |-> EnvGiven(n), resolved |-> ResolvedOn(n)])
+          /\ snapshot' = IF cfg[n].env # "values" /\ snapshot = NoSnapshot THEN hostEpoch ELSE snapshot
           /\ UNCHANGED <<phase, outcome>>
-  /\ UNCHANGED <<entry, malformed, cfg, loaded, handshakes>>
+  /\ UNCHANGED <<entry, malformed, cfg, loaded, handshakes, run, hostEpoch>>
 
 Initialize ==
   /\ phase = "spawn" /\ \E i \in DOMAIN spawned : spawned[i].server \notin handshakes
   /\ handshakes' = handshakes \cup {spawned[CHOOSE i \in DOMAIN spawned : spawned[i].server \notin handshakes].server}
-  /\ UNCHANGED <<entry, malformed, cfg, phase, loaded, spawned, outcome>>
+  /\ UNCHANGED <<entry, malformed, cfg, phase, loaded, spawned, outcome, run, hostEpoch, snapshot>>
 
 Finish ==
   /\ phase = "spawn" /\ Len(spawned) = Cardinality(loaded) /\ handshakes = loaded
   /\ phase' = "done" /\ outcome' = "connected"
-  /\ UNCHANGED <<entry, malformed, cfg, loaded, spawned, handshakes>>
+  /\ UNCHANGED <<entry, malformed, cfg, loaded, spawned, handshakes, run, hostEpoch, snapshot>>
 
-Next == Load \/ Spawn \/ Initialize \/ Finish
+\* the same host process uses an entry point again; its own environment may have changed
+Relaunch ==
+  /\ phase = "done" /\ run < MaxRuns
+  /\ run' = run + 1 /\ hostEpoch' \in {hostEpoch, hostEpoch + 1}
+  /\ entry' \in Entries /\ phase' = "start"
+  /\ loaded' = {} /\ spawned' = <<>> /\ handshakes' = {} /\ outcome' = "none"
+  /\ UNCHANGED <<malformed, cfg, snapshot>>
+
+Next == Load \/ Spawn \/ Initialize \/ Finish \/ Relaunch
 Spec == Init /\ [][Next]_vars
 
 -----------------------------------------------------------------------------
@@ -78,6 +117,9 @@ LaunchesExactlyConfigured ==
      /\ Len(spawned) = Cardinality(Targets)
      /\ \A i \in DOMAIN spawned : spawned[i].args = cfg[spawned[i].server].args /\ spawned[i].env = cfg[spawned[i].server].env
      /\ handshakes = Targets
+\* at every moment: what a child was given is what the configuration and the host say at its launch
+EnvironmentAtLaunch == \A i \in DOMAIN spawned : spawned[i].given = ExpectedEnv(spawned[i].server)
+CommandAsConfigured == \A i \in DOMAIN spawned : spawned[i].resolved = ExpectedResolution(spawned[i].server)
 LoaderReturnsConfigured == Done /\ malformed = "none" /\ entry = "loader" => outcome = "params"
 MalformedSurfaces ==
   Done /\ malformed # "none" =>
